@@ -181,12 +181,12 @@ compu_case.seen = set()
 
 
 # ------------------------------------------------------------------ PDU families
-def wire_family(ctx, rep, corr, comps, family, rng, cap):
+def wire_family(ctx, rep, corr, comps, family, rng, cap, cap_all=False, only=None):
     L, err = O.safe_load(comps)
     if L is None:
         if len(comps) > 1:
             for c in comps:
-                wire_family(ctx, rep, corr, [c], family, rng, cap)
+                wire_family(ctx, rep, corr, [c], family, rng, cap, cap_all, only)
         else:
             ctx.count("documents_rejected_by_loader")
         return
@@ -196,7 +196,7 @@ def wire_family(ctx, rep, corr, comps, family, rng, cap):
         O.record_features(ctx, c)
         ctx.histo("family", family)
         try:
-            pdus = list(O.wire_pdus(rng, c, cap=cap))
+            pdus = list(O.wire_pdus(rng, c, cap=cap, cap_all=cap_all, only=only))
         except V.Unsupported:
             ctx.count("wire_unsupported_description")
             continue
@@ -248,22 +248,22 @@ def run(ctx):
         # (b) from the wire: enumerated standard-length DOPs and random simple-tier composites
         bitlens = range(1, 65) if big else sorted(set(V.BIAS_LENGTHS + [2, 3, 4, 5, 6, 12, 24] + rng.sample(range(1, 65), 4)))
         for comps in batches(G.enum_std_numeric(bitlens, range(8) if big else (0, 1, 4, 7)), 64):
-            wire_family(ctx, rep, corr, comps, "wire-enum-integer", rng, 300 if big else 40)
+            wire_family(ctx, rep, corr, comps, "wire-enum-integer", rng, 110 if big else 40, only={("x",)})
         for comps in batches(G.enum_std_other((0, 3)), 48):
-            wire_family(ctx, rep, corr, comps, "wire-enum-other", rng, 60 if big else 16)
+            wire_family(ctx, rep, corr, comps, "wire-enum-other", rng, 60 if big else 16, only={("x",)})
         corr.flush()
-        for i in range(12000 if big else 1200):
+        for i in range(8000 if big else 1200):
             try:
                 c = G.gen_composite(rng, profile=G.SIMPLE_DEEP if big else G.SIMPLE, name="C")
             except Exception as e:  # noqa
                 ctx.count("generator_error:" + type(e).__name__)
                 continue
-            wire_family(ctx, rep, corr, [c], "wire-random-simple", rng, 60 if big else 24)
+            wire_family(ctx, rep, corr, [c], "wire-random-simple", rng, 60 if big else 24, cap_all=True)
             if i % 300 == 299:
                 corr.flush()
         corr.flush()
         # (c) PDUs produced by the encoder for the full envelope
-        for i in range(25000 if big else 2500):
+        for i in range(15000 if big else 2500):
             try:
                 c = G.gen_composite(rng, profile=G.THOROUGH if big else G.QUICK, name="C")
             except Exception as e:  # noqa
@@ -295,7 +295,7 @@ def run(ctx):
         corr.flush()
         # (d) compu methods: every internal value of the 8-bit window
         crng = ctx.sub_rng("compu")
-        for i in range(6000 if big else 900):
+        for i in range(4000 if big else 900):
             cat = crng.choice(["LINEAR", "LINEAR", "SCALE-LINEAR", "SCALE-LINEAR", "TAB-INTP", "TAB-INTP", "RAT-FUNC", "IDENTICAL"])
             ity = crng.choice(CL.INT_TYPES)
             pty = crng.choice(["A_INT32", "A_UINT32", "A_FLOAT64", "A_FLOAT64", "A_FLOAT32"])
